@@ -1123,7 +1123,12 @@ class ServerSSM(SSM):
         if self.segmentRetryCount < self.numberOfApduRetries:
             self.segmentRetryCount += 1
             self.start_timer(self.segmentTimeout)
-            self.fill_window(self.initialSequenceNumber)
+
+            # no segment ack yet, the window size has not been agreed on
+            if self.actualWindowSize is None:
+                self.response(self.get_segment(0))
+            else:
+                self.fill_window(self.initialSequenceNumber)
         else:
             # give up
             self.set_state(ABORTED)
